@@ -3,7 +3,9 @@
 //! It echoes what the public API reports about the start-up data; nothing is decided here - the
 //! output is turned into a trace by lib/checks/c07.py and judged by TLC (specs/StartupJudge.tla).
 //!
-//! stdin: one lookup key per line, hex encoded ("-" = the empty key).  The launcher reads
+//! stdin: one lookup key per line, hex encoded ("-" = the empty key); lines "it <o|s> <op>,<op>,..." are iterator
+//! scripts (ops: n = next, h<k> = nth(k), l = len, z = size_hint, t<k> = by_ref().take(k) collected,
+//! p<k> = by_ref().skip(k) collected, s = by_ref().step_by(2) collected, L = last, K = count, C = collect).  The launcher reads
 //! /proc/<pid>/{auxv,cmdline,environ,mem} while this process blocks on stdin.
 //! stdout (one item per line, all byte strings hex encoded, "-" = empty):
 //!   argc <args_os().len()> <args().len()>
@@ -15,6 +17,7 @@
 //!   reloc <i> <hex>                   the strings two pointer tables (one in .data.rel.ro, one in .data)
 //!                                     point to - every table word needs a RELATIVE relocation in PIE modes
 //!   clock mono|real <s> <ns> <s> <ns> <s> <ns>        syscall, tiny-std (vDSO when found), syscall
+//!   iter <o|s> <script> <obs>|<obs>|...                the Iterator surface of args_os() (o) / args() (s), see run_script
 //!   done
 #![no_std]
 #![no_main]
@@ -153,6 +156,86 @@ fn put_ts(ts: &rusl::platform::TimeSpec) {
     puti(ts.nanoseconds());
 }
 
+/// One observation per op, separated by '|': I<hex> / IE (item, IE = Err of args()), N (None), #<n>, H<lo>,<hi or N>,
+/// [<el>;<el>;...] (el = hex or E; a trailing '!' = stopped after 64 items: the adapter did not terminate).
+fn run_script<I: ExactSizeIterator>(mut it: I, toks: &[u8], put_item: fn(I::Item)) {
+    fn put_list<J: Iterator>(j: J, put_item: fn(J::Item)) {
+        putb(b'[');
+        let mut n = 0;
+        for x in j {
+            if n > 0 {
+                putb(b';');
+            }
+            if n == 64 {
+                putb(b'!');
+                break;
+            }
+            put_item(x);
+            n += 1;
+        }
+        putb(b']');
+    }
+    let mut first = true;
+    for tok in toks.split(|c| *c == b',') {
+        if tok.is_empty() {
+            continue;
+        }
+        if !first {
+            putb(b'|');
+        }
+        first = false;
+        let k = if tok.len() > 1 { usize::from(tok[1] - b'0') } else { 0 };
+        match tok[0] {
+            b'n' | b'h' | b'L' => {
+                let x = match tok[0] {
+                    b'n' => it.next(),
+                    b'h' => it.nth(k),
+                    _ => it.by_ref().last(),
+                };
+                match x {
+                    Some(x) => {
+                        putb(b'I');
+                        put_item(x);
+                    }
+                    None => putb(b'N'),
+                }
+            }
+            b'l' => {
+                putb(b'#');
+                putu(it.len() as u64);
+            }
+            b'K' => {
+                putb(b'#');
+                putu(it.by_ref().count() as u64);
+            }
+            b'z' => {
+                let (lo, hi) = it.size_hint();
+                putb(b'H');
+                putu(lo as u64);
+                putb(b',');
+                match hi {
+                    Some(h) => putu(h as u64),
+                    None => putb(b'N'),
+                }
+            }
+            b't' => put_list(it.by_ref().take(k), put_item),
+            b'p' => put_list(it.by_ref().skip(k), put_item),
+            b's' => put_list(it.by_ref().step_by(2), put_item),
+            b'C' => put_list(it.by_ref(), put_item),
+            _ => putb(b'?'),
+        }
+    }
+}
+fn put_os_item(a: &'static UnixStr) {
+    puthex(content(a));
+}
+fn put_str_item(a: Result<&'static str, tiny_std::Error>) {
+    match a {
+        Ok(s) => puthex(s.as_bytes()),
+        Err(_) => putb(b'E'),
+    }
+}
+
 #[no_mangle]
 pub fn main() -> i32 {
     // ---- arguments
@@ -245,6 +328,22 @@ pub fn main() -> i32 {
     let mut key = [0u8; 600];
     for line in inp.split(|c| *c == b'\n') {
         if line.is_empty() {
+            continue;
+        }
+        if line.len() > 5 && &line[..3] == b"it " {
+            puts("iter ");
+            putb(line[3]);
+            putb(b' ');
+            for b in &line[5..] {
+                putb(*b);
+            }
+            putb(b' ');
+            if line[3] == b'o' {
+                run_script(tiny_std::env::args_os(), &line[5..], put_os_item);
+            } else {
+                run_script(tiny_std::env::args(), &line[5..], put_str_item);
+            }
+            putb(b'\n');
             continue;
         }
         let mut klen = 0;
